@@ -482,7 +482,7 @@ class MultiportILVTMemory(BaseMultiportMemory):
         m.submodules.ilvt = ilvt = self.memory_type(
             shape=shape,
             depth=self.depth,
-            init=self.init,
+            init=[],  # every row initially lives in bank 0, which holds the initial contents
             src_loc_at=self.src_loc + 1,
         )
 
